@@ -47,6 +47,14 @@ class Workspace(object):
     """Scratch copy of the repository working tree, outside /repo, /verif and /tmp."""
 
     def __init__(self):
+        # scratch directories of runs that were killed (SIGKILL, power loss) are swept when they are older than 3 hours
+        try:
+            now = time.time()
+            for d in Path(SCRATCH_ROOT).glob('pyxverif-*'):
+                if d.is_dir() and now - d.stat().st_mtime > 3 * 3600:
+                    shutil.rmtree(str(d), ignore_errors=True)
+        except OSError:
+            pass
         self.root = Path(tempfile.mkdtemp(prefix='pyxverif-', dir=SCRATCH_ROOT))
         self.repo = self.root / 'repo'
         ignore = shutil.ignore_patterns('.git', '__pycache__', '*.pyc', '__*tab.py', '.pytest_cache',
@@ -194,6 +202,7 @@ class LeanSide(object):
         self.log = log or (lambda *a: None)
         self.build_output = ''
         self.timing = {}
+        self.leanchecker_modules = []
 
     # -- translator ---------------------------------------------------------------
     def gen_deps(self):
@@ -328,14 +337,34 @@ class LeanSide(object):
     def leanchecker(self):
         """Thorough tier: independent re-check of the compiled property module."""
         t0 = time.time()
+        self.leanchecker_modules = []
         if shutil.which('leanchecker') is None:
+            self.log('leanchecker is not on PATH: the independent re-check is SKIPPED')
             return None
-        p = subprocess.run(['lake', 'env', 'leanchecker', 'Props.%s' % self.prop], cwd=str(self.dir),
+        # the property module and every module of this project it imports (models, generated tables, lemmas)
+        mods = sorted(m for m in self.project_imports() if m.split('.')[0] in ('Props', 'Proofs', 'PyxModel', 'Gen'))
+        p = subprocess.run(['lake', 'env', 'leanchecker'] + mods, cwd=str(self.dir),
                            stdout=subprocess.PIPE, stderr=subprocess.STDOUT, text=True, timeout=3600)
         self.timing['leanchecker_s'] = round(time.time() - t0, 2)
+        self.leanchecker_modules = mods
         if p.returncode != 0:
-            self.broken.append('leanchecker Props.%s failed: %s' % (self.prop, p.stdout[-400:]))
+            self.broken.append('leanchecker failed on %d modules of Props.%s: %s' % (len(mods), self.prop, p.stdout[-400:]))
         return p.returncode == 0
+
+    def project_imports(self):
+        """modules of this lake project that Props/<prop>.lean imports, transitively (incl. itself)"""
+        seen, todo = set(), ['Props.%s' % self.prop]
+        while todo:
+            mod = todo.pop()
+            if mod in seen:
+                continue
+            f = self.dir / (mod.replace('.', '/') + '.lean')
+            if not f.exists():
+                continue
+            seen.add(mod)
+            for m in re.finditer(r'^\s*import\s+(\S+)', _strip_lean_comments(f.read_text()), re.M):
+                todo.append(m.group(1))
+        return seen
 
     def prepare(self, thorough=False):
         self.regenerate()
